@@ -92,6 +92,17 @@ CLAIMED = {
             'partial: per-site coverage is finite-by-measurement on one covering module (corpus re-layout not yet included); multi-word '
             'reserved words are a known finding',
             'Coq proof (strong induction over trivia) + differential correspondence + exhaustive boundary sweep'),
+    'C08': ('proof',
+            'partial. Proved for every input: the nestable-comment scanner never slices out of range; the error-excerpt arithmetic '
+            '(until_next_unindented, contextualize) stays in range and on character boundaries for every report the position '
+            'bookkeeping can produce (built on the C17 invariant). Decided by search: everything else -- both back ends and the '
+            'rendering of every error and warning run in worker processes (panic hook, abort and 30 s hang detection) on notation '
+            'coverage modules, all their prefixes, multi-byte insertions, token soup and token-level mutations of them and of the '
+            '892 real-world modules',
+            '§6 C08',
+            'partial: nom, proc_macro2/quote, the linker and the generators are covered by search only; stack depth and time are '
+            'runtime facts observed by the worker harness, not derived',
+            'Coq proof of the hand-written index arithmetic + worker-process totality search'),
 }
 NOT_YET = 'check not built yet in this session (planned, see DESIGN.md §6); not claimed until its proof and correspondence run'
 
